@@ -104,34 +104,43 @@ inductive PointOp (κ ν : Type)
   | ref    (p : List κ)                 -- getPayloadRef at a full point (returns current value)
   | assign (p : List κ) (v : ν)         -- ref <<= v
   | iadd   (p : List κ) (v : ν)         -- ref += v
+  | scale  (p : List κ) (g : ν → ν)     -- h = getPayloadRef(*p) at a partial point (or the root itself); h *= k
 
-/-- concrete step on trees of depth `d`; output = the value read / held by the reference -/
-def pointStep [Add ν] (dflt : ν) (d : Nat) (t : Tree κ ν d) : PointOp κ ν → Tree κ ν d × ν
-  | .get p      => (t, getLeaf dflt d t p)
-  | .ref p      => let t' := refAt dflt d t p; (t', getLeaf dflt d t' p)
-  | .assign p v => let t' := updateAt (fun _ => v) d (refAt dflt d t p) p; (t', getLeaf dflt d t' p)
-  | .iadd p v   => let t' := updateAt (fun x => x + v) d (refAt dflt d t p) p; (t', getLeaf dflt d t' p)
+/-- concrete step on trees of depth `d`; output = the value read / held by the reference (none for `scale`) -/
+def pointStep [Add ν] (dflt : ν) (d : Nat) (t : Tree κ ν d) : PointOp κ ν → Tree κ ν d × Option ν
+  | .get p      => (t, some (getLeaf dflt d t p))
+  | .ref p      => let t' := refAt dflt d t p; (t', some (getLeaf dflt d t' p))
+  | .assign p v => let t' := updateAt (fun _ => v) d (refAt dflt d t p) p; (t', some (getLeaf dflt d t' p))
+  | .iadd p v   => let t' := updateAt (fun x => x + v) d (refAt dflt d t p) p; (t', some (getLeaf dflt d t' p))
+  | .scale p g  => (updateUnder g d (refAt dflt d t p) p, none)
 
 /-- abstract step on maps from points to values -/
-def specStep [Add ν] (m : List κ → ν) : PointOp κ ν → (List κ → ν) × ν
-  | .get p      => (m, m p)
-  | .ref p      => (m, m p)
-  | .assign p v => ((fun q => if q = p then v else m q), v)
-  | .iadd p v   => ((fun q => if q = p then m p + v else m q), m p + v)
+def specStep [Add ν] (m : List κ → ν) : PointOp κ ν → (List κ → ν) × Option ν
+  | .get p      => (m, some (m p))
+  | .ref p      => (m, some (m p))
+  | .assign p v => ((fun q => if q = p then v else m q), some v)
+  | .iadd p v   => ((fun q => if q = p then m p + v else m q), some (m p + v))
+  | .scale p g  => ((fun q => if p <+: q then g (m q) else m q), none)
 
-def pointRun [Add ν] (dflt : ν) (d : Nat) : Tree κ ν d → List (PointOp κ ν) → Tree κ ν d × List ν
+def pointRun [Add ν] (dflt : ν) (d : Nat) : Tree κ ν d → List (PointOp κ ν) → Tree κ ν d × List (Option ν)
   | t, [] => (t, [])
   | t, op :: ops =>
     let r := pointStep dflt d t op
     let rest := pointRun dflt d r.1 ops
     (rest.1, r.2 :: rest.2)
 
-def specRun [Add ν] : (List κ → ν) → List (PointOp κ ν) → List ν
+def specRun [Add ν] : (List κ → ν) → List (PointOp κ ν) → List (Option ν)
   | _, [] => []
   | m, op :: ops => let r := specStep m op; r.2 :: specRun r.1 ops
 
 def PointOp.point : PointOp κ ν → List κ
-  | .get p | .ref p | .assign p _ | .iadd p _ => p
+  | .get p | .ref p | .assign p _ | .iadd p _ | .scale p _ => p
+
+/-- the operations the refinement theorem speaks about: full points for reads, references and writes; any
+    partial point (the root included) for in-place scaling, with an update that leaves the default alone -/
+def PointOp.ok (dflt : ν) (d : Nat) : PointOp κ ν → Prop
+  | .scale p g => p.length ≤ d ∧ g dflt = dflt
+  | op => op.point.length = d
 
 end
 end Ft
